@@ -36,6 +36,10 @@ func (poly *Poly) Empty() bool {
 }
 
 func (poly *Poly) Valid() bool {
+	if poly == nil || poly.Exterior == nil {
+		// no position at all
+		return true
+	}
 	if !poly.Exterior.Valid() {
 		return false
 	}
